@@ -567,6 +567,10 @@ impl DcpsDomainParticipant {
         message_receiver: &MessageReceiver<'_>,
         gap_submessage: &GapSubmessage,
     ) {
+        // RTPS 8.3.7.4.3: a GAP is invalid if gapStart is zero or negative or the gapList is invalid
+        if gap_submessage.gap_start() <= 0 || gap_submessage.gap_list().base() <= 0 {
+            return;
+        }
         for dr in self
             .domain_participant
             .user_defined_subscriber_list
@@ -583,9 +587,11 @@ impl DcpsDomainParticipant {
                 gap_submessage.writer_id(),
             );
             if let Some(writer_proxy) = dr.transport_reader.matched_writer_lookup(writer_guid) {
-                for seq_num in gap_submessage.gap_start()..gap_submessage.gap_list().base() {
-                    writer_proxy.irrelevant_change_set(seq_num)
-                }
+                // The range can span the whole sequence number space: it is applied in one step
+                writer_proxy.irrelevant_change_range_set(
+                    gap_submessage.gap_start(),
+                    gap_submessage.gap_list().base() - 1,
+                );
 
                 for seq_num in gap_submessage.gap_list().set() {
                     writer_proxy.irrelevant_change_set(seq_num)
